@@ -1,7 +1,7 @@
 import Driver.FloatMat
 import Ecpint.Model.RadialGen
 /-! layer `radial`: `radial <nbase> <un> <ua> <a> <A> <b> <B> <daw1> <daw2> <N> <l1> <l2> <erf>` (hex bits)
-out: `R <value> <closed|quad|screened> <cut>` `E <estimate>` `Q <value> <conv> <cut>` `N <value> <conv>` (no tail cut: counterfactual) `V <values>` `end` -/
+out: `R <value> <closed|quad|screened> <cut>` `E <estimate>` `Q <value> <conv> <cut>` `N <value> <conv> <argmax>` (no tail cut: counterfactual; index of the largest tabulated value) `V <values>` `end` -/
 namespace Driver.Radial
 open Ecpint Ecpint.RadialGen
 
@@ -42,6 +42,7 @@ def handle (env : Env) (toks : List String) : List String :=
       let e := estimateType2 env.bessel k l1 l2 ua a b A B f[7]!
       let q := integrateSmall env.prim env.bessel smallF tolF k l1 l2 ua a b A B
       let qn := integrateSmall env.prim env.bessel smallF tolF k l1 l2 ua a b A B false
+      let qf := integrateSmall env.prim env.bessel smallF tolF k l1 l2 ua a b A B false true
       let p := ua + a + b; let x := a * A; let y := b * B
       let P1 := (x + y) / p; let P2 := (y - x) / p; let P1sq := P1 * P1; let P2sq := P2 * P2
       let oP2 : Float := if Float.abs P2 < 1e-7 then 0 else 1 / P2sq
@@ -49,8 +50,9 @@ def handle (env : Env) (toks : List String) : List String :=
       let X1 := Float.exp (p * P1sq - aAbB) * Kab; let X2 := Float.exp (p * P2sq - aAbB) * Kab
       let v := baseIntegrals 2 (3 + nbase) p (1 / Float.sqrt p) P1 P2 P1sq P2sq X1 X2 (1 / P1sq) oP2 rootPiF
       [s!"R {hexOfFloat r.1} {pathName r.2.1} {r.2.2}", s!"E {hexOfFloat e}",
-       s!"Q {hexOfFloat q.1} {if q.2.1 then 1 else 0} {q.2.2}",
-       s!"N {hexOfFloat qn.1} {if qn.2.1 then 1 else 0}",
+       s!"Q {hexOfFloat q.1} {if q.2.1 then 1 else 0} {q.2.2.1}",
+       s!"N {hexOfFloat qn.1} {if qn.2.1 then 1 else 0} {qn.2.2.2}",
+       s!"F {hexOfFloat qf.1}",
        "V " ++ " ".intercalate ((v.toList.take (nbase + 2)).map hexOfFloat), "end"]
     | _, _, _, _, _, _ => ["bad-op", "end"]
   | _ => ["bad-op", "end"]
